@@ -37,11 +37,15 @@ func checkC10Loop(c C05Case, o *vcore.Obs) error {
 		return err
 	}
 	defer f.close()
+	startedAt := time.Now() // not later than the moment any of the loops starts
 	for _, nd := range f.nodes {
 		if _, err := nd.Start(); err != nil {
 			return err
 		}
 	}
+	// a forced-snapshot interval that can elapse during the case relaxes the counting clauses; the
+	// per-upload justification below then also accepts "the interval has passed since the previous one"
+	forcedPossible := c.Force > 0 && c.Force < int64(time.Minute)
 	appCommits := 0
 	commitsBy := map[string]int{}
 	commitIDs := map[string][]int64{} // instance -> LMDB transaction ids of its application's commits
@@ -77,13 +81,16 @@ func checkC10Loop(c C05Case, o *vcore.Obs) error {
 		}
 	}
 	for _, nd := range f.nodes {
+		if forcedPossible {
+			break
+		}
 		// one upload may have been in flight when the last commit landed, plus one for that commit
 		if n := storesBy(f.b, nd.Name, mark); n > 2 {
 			return fmt.Errorf("%s uploaded %d snapshots after the applications stopped writing (an upload in flight plus one pending upload are justified); stores per round: %v", nd.Name, n, storesPerRound)
 		}
 	}
 	for r := 2; r < rounds; r++ {
-		if storesPerRound[r] != 0 {
+		if storesPerRound[r] != 0 && !forcedPossible {
 			return fmt.Errorf("snapshots are still being uploaded %d rounds after the last application write: stores per round %v (echo)", r, storesPerRound)
 		}
 	}
@@ -94,16 +101,18 @@ func checkC10Loop(c C05Case, o *vcore.Obs) error {
 	// every instance starts with an empty LMDB here (no start-up upload): each upload needs its own
 	// preceding local application commit
 	for _, nd := range f.nodes {
-		if n := storesBy(f.b, nd.Name, 0); n > commitsBy[nd.Name] {
+		if n := storesBy(f.b, nd.Name, 0); n > commitsBy[nd.Name] && !forcedPossible {
 			return fmt.Errorf("%s uploaded %d snapshots but its application committed only %d transactions: an instance uploads only after a local application change (echo upload)", nd.Name, n, commitsBy[nd.Name])
 		}
 	}
 	_ = total
+	forcedSeen := 0
 	// ... more precisely: every snapshot states the LMDB transaction its image was taken at; between the
 	// images of two consecutive uploads of an instance (before the first one: since the empty start) its
 	// application must have committed at least once - otherwise the second one is an echo of the first
 	for _, nd := range f.nodes {
 		prev := int64(0)
+		prevTaken := uint64(startedAt.UnixNano())
 		k := 0
 		for _, op := range f.b.Log() {
 			if op.Kind != "store" || !op.Applied || op.By != nd.Name {
@@ -120,6 +129,11 @@ func checkC10Loop(c C05Case, o *vcore.Obs) error {
 					justified = true
 				}
 			}
+			if !justified && c.Force > 0 && flat.Meta.TimestampNano > prevTaken && flat.Meta.TimestampNano-prevTaken > uint64(c.Force) {
+				justified = true // the configured forced interval has passed since the previous snapshot (or the start)
+				forcedSeen++
+			}
+			prevTaken = flat.Meta.TimestampNano
 			if !justified {
 				return fmt.Errorf("%s uploaded %s (upload %d, image of LMDB transaction %d) although its application committed nothing since the image of its previous upload (transaction %d; application commits: %v): an instance uploads only after a local application change (echo of its own data)", nd.Name, op.Name, k+1, at, prev, commitIDs[nd.Name])
 			}
@@ -152,6 +166,9 @@ func checkC10Loop(c C05Case, o *vcore.Obs) error {
 	o.NonTrivial(len(writers) >= 2 && exchanged)
 	o.ClassIf(c.Native, "native")
 	o.ClassIf(!c.Native, "shadow")
+	o.ClassIf(c.Force > 0 && !forcedPossible, "forced-interval-configured-but-long")
+	o.ClassIf(forcedPossible, "forced-interval-short")
+	o.ClassIf(forcedSeen > 0, "forced-snapshot-observed")
 	o.Class(fmt.Sprintf("total-stores-%d", min(total, 12)))
 	for i := 0; i < c.ExcludedEmpty; i++ {
 		o.Excluded("shadow-empty-value")
@@ -206,12 +223,13 @@ func genC10Loop(t *rapid.T) C05Case {
 		c.Ops = append(c.Ops, op)
 	}
 	c.ExcludedEmpty = lc.ExcludedEmpty
+	c.Force = rapid.SampledFrom([]int64{0, 0, int64(time.Hour), int64(15 * time.Millisecond), int64(60 * time.Millisecond)}).Draw(t, "force")
 	return c
 }
 
 func TestC10Loop(t *testing.T) {
 	vcore.Run(t, vcore.Config{Property: "C10", Inflight: true,
-		Rule: "2-3 real sync loops under the scheduler with interleaved application commits, then a write-free phase of 2N+2 rounds (two loop iterations per instance and round): every instance uploads at most twice more (one upload in flight + one pending), no upload at all from the third round on, uploads of an instance <= its recorded application commits (instances start empty), every upload's image transaction (snapshot meta) is preceded by an application commit newer than the previous upload's image, identical content at the end; non-trivial = >=2 instances wrote and data was exchanged"},
+		Rule: "2-3 real sync loops under the scheduler with interleaved application commits, then a write-free phase of 2N+2 rounds (two loop iterations per instance and round): every instance uploads at most twice more (one upload in flight + one pending), no upload at all from the third round on, uploads of an instance <= its recorded application commits (instances start empty), every upload's image transaction (snapshot meta) is preceded by an application commit newer than the previous upload's image, identical content at the end; storage_force_snapshot_interval off / 1 h (same clauses) / 15-60 ms (an upload is also justified when the interval has passed since the instance's previous snapshot, by the snapshots' own timestamps; the counting clauses are off); non-trivial = >=2 instances wrote and data was exchanged"},
 		genC10Loop, checkC10Loop)
 }
 
